@@ -90,6 +90,23 @@ Theorem C08_wf_compvec : forall v,
 Proof. exact wf_compvec_intro. Qed.
 Print Assumptions C08_wf_compvec.
 
+(* ---- the same, read directly on the code REGENERATED from serial.rs / primitive.rs (gen/SerialImplGen.v) ---- *)
+From Sucds Require Import Base.SerialDict gen.SerialImplGen Proofs.SerialImplTie.
+Theorem C08_generated_roundtrip : forall c t v rest,
+  vec_ok t = true -> wf_val t v = true -> size t v < W ->
+  exists bytes, sd_ser (dict_of mem_io c t) v [] = ok (bytes, lenN bytes) /\
+                sd_size (dict_of mem_io c t) v = Ok (lenN bytes) /\
+                sd_deser (dict_of mem_io c t) (bytes ++ rest) = ok (v, rest).
+Proof. exact gen_roundtrip. Qed.
+Print Assumptions C08_generated_roundtrip.
+Theorem C08_generated_ser : forall c t v w, wf_val t v = true -> size t v < W ->
+  sd_ser (dict_of mem_io c t) v w = ok (w ++ ser t v, size t v).
+Proof. exact tie_ser_mem. Qed.
+Print Assumptions C08_generated_ser.
+Theorem C08_generated_deser : forall c t bs, vec_ok t = true -> sd_deser (dict_of mem_io c t) bs = Ok (deser t bs).
+Proof. exact tie_deser_mem. Qed.
+Print Assumptions C08_generated_deser.
+
 (* the hypotheses are satisfiable on a nested value (struct of Vec<Option<u16>>, Option<Vec<bool>>,
    isize), and the conclusions compute *)
 Example C08_nonvacuous :
